@@ -134,11 +134,29 @@ def main(argv=None):
     tasks.sort(key=lambda t: -cost[t[1]] * t[3])
 
     results = []
+    timed_out = []
     if tasks:
         ctx = mp.get_context('spawn')
-        with ctx.Pool(min(a.jobs, len(tasks))) as pool:
-            for r in pool.imap_unordered(core.run_shard, tasks, chunksize=1):
-                results.append(r)
+        # watchdog: a shard that is still running long after every per-obligation budget has expired
+        # (a single solver call that never returns) is abandoned and reported as inconclusive
+        hard = time.time() + 2.0 * max(t[6] for t in tasks) + 120
+        pool = ctx.Pool(min(a.jobs, len(tasks)))
+        try:
+            pending = [(t, pool.apply_async(core.run_shard, (t,))) for t in tasks]
+            while pending and time.time() < hard:
+                still = []
+                for t, ar in pending:
+                    if ar.ready():
+                        results.append(ar.get())
+                    else:
+                        still.append((t, ar))
+                pending = still
+                if pending:
+                    time.sleep(0.2)
+            timed_out = [t for t, _ in pending]
+        finally:
+            pool.terminate()
+            pool.join()
 
     per_obl = {}
     for r in results:
@@ -167,6 +185,7 @@ def main(argv=None):
             bb['cases'] = sorted(bb['cases'] + [tuple(c) for c in b['cases']], key=lambda c: (c[0], c[1]))[:3]
 
     n_known_gen = Counter()
+    shrink_deadline = time.time() + (90 if a.tier == 'quick' else 900)
     for oname, d in sorted(per_obl.items()):
         obl = registry.get_obligation(prop, oname)
         for k, b in sorted(d['buckets'].items(), key=lambda kv: str(kv[0])):
@@ -185,9 +204,10 @@ def main(argv=None):
                                        tier=a.tier), f, indent=1, sort_keys=True)
                 continue
             c = b['cases'][0]
-            if len(violations) < 12:
+            left = shrink_deadline - time.time()
+            if len(violations) < 12 and left > 5:
                 try:
-                    c = core.shrink_bucket(prop, obl, k, c, budget_s=60 if a.tier == 'quick' else 280)
+                    c = core.shrink_bucket(prop, obl, k, c, budget_s=min(left, 30 if a.tier == 'quick' else 240))
                 except BaseException:
                     pass
             violations.append((oname, k[:3], c[2], c[3]))
@@ -241,7 +261,7 @@ def main(argv=None):
                             known_findings_seen={k: int(v) for k, v in known_seen.items()},
                             generated_cases_matching_known_findings={k: int(v) for k, v in n_known_gen.items()},
                             violation_records=viol_records,
-                            harness_errors=len(harness)),
+                            harness_errors=len(harness), shards_abandoned_by_watchdog=len(timed_out)),
               assumptions=meta.get('assumptions', []),
               wall_s=round(wall, 2), violations=len(seen_paths))
     if not a.no_evidence and not only:
@@ -255,6 +275,8 @@ def main(argv=None):
         print('  %-28s cases=%-6d nontriv=%-6d maxratio=%-9.3g rejected=%d%s  %.1fs' % (
             oname, d['evals'], len(d['nontrivial']), d['max_metric'], sum(d['rejected'].values()),
             ' INCONCLUSIVE(budget)' if d['inconclusive'] else '', d['wall']))
+    for t in timed_out:
+        print('INCONCLUSIVE obligation=%s shard=%d abandoned by the watchdog (a call did not return within the budget)' % (t[1], t[2]))
     if harness:
         for h in harness[:5]:
             print('HARNESS-ERROR', h, file=sys.stderr)
